@@ -60,6 +60,31 @@ pub fn occ<const N: usize, const K: u32>(alpha: &[u8], cand: &[u8]) {
     core::mem::forget(occ);
 }
 
+
+/// k > 64 look-ahead branch with CONCRETE query rows (so that the slices handed to bytecount have concrete bounds) and all
+/// bytes + the queried symbol symbolic.
+#[cfg(kani)]
+pub fn occ_rows<const N: usize, const K: u32>(alpha: &[u8], rows: &[usize]) {
+    let b = bytes_from::<N>(alpha);
+    let alphabet = Alphabet::new(alpha);
+    let occ = Occ::new(&b[..], K, &alphabet);
+    let ci: usize = kani::any();
+    kani::assume(ci < alpha.len());
+    let c = alpha[ci];
+    let k = K as usize;
+    let mut i = 0;
+    while i < rows.len() {
+        let r = rows[i];
+        let got = occ.get(&b[..], r, c);
+        let want = count_prefix(&b, r, c);
+        assert!(got == want, "C04: Occ::get (k > 64) differs from the count of c in bwt[0..=r]");
+        i += 1;
+    }
+    let hi = (rows[rows.len() - 1] / k + 1) * k;
+    kani::cover!(hi < N && b[hi] == c, "queried symbol sits on the high checkpoint row");
+    core::mem::forget(occ);
+}
+
 /// less(bytes, alphabet)[c] == #{ i : bytes[i] < c } for every c <= max_symbol + 1.
 #[cfg(kani)]
 pub fn less_table<const N: usize>(alpha: &[u8], cand: &[u8], max_symbol: u8) {
@@ -190,9 +215,13 @@ inst!(c04_occ_n131_k65, 137, occ::<131, 65>(&[1, 2], &[1, 2]));
 inst!(c04_occ_n130_k66, 136, occ::<130, 66>(&[1, 2], &[1, 2]));
 inst!(c04_occ_n131_k129, 137, occ::<131, 129>(&[1, 2], &[1, 2]));
 inst!(c04_occ_n70_k140, 76, occ::<70, 140>(&[1, 2], &[1, 2]));
+inst!(c04_occrows_n66_k65, 72, occ_rows::<66, 65>(&[1, 2], &[0, 31, 32, 33, 40, 64]));
+inst!(c04_occrows_n67_k66, 73, occ_rows::<67, 66>(&[1, 2], &[1, 33, 34, 65]));
+inst!(c04_occrows_n131_k65, 137, occ_rows::<131, 65>(&[1, 2], &[64, 65, 66, 100, 129]));
 inst!(c04_less_n5_ac, 72, less_table::<5>(b"AC$", b"AC$", b'C'));
 inst!(c04_less_n6_acg, 76, less_table::<6>(b"ACG", b"ACG$", b'G'));
 inst!(c04_less_n6_small, 12, less_table::<6>(&[0, 1, 3], &[0, 1, 3], 3));
+inst!(c04_less_n6_gap, 12, less_table::<6>(&[1, 2, 5], &[1, 2], 5));
 inst!(c04_bwt_n1, 8, bwt_def::<1>());
 inst!(c04_bwt_n4, 8, bwt_def::<4>());
 inst!(c04_bwt_n6, 10, bwt_def::<6>());
